@@ -15,6 +15,8 @@ use std::sync::atomic::{AtomicBool, AtomicU64, Ordering};
 use std::sync::{Arc, Mutex};
 use std::time::Instant;
 
+pub mod bytesde;
+
 pub const WORKERS: usize = 16;
 
 #[derive(Clone, Copy, Debug, PartialEq, Eq)]
@@ -713,6 +715,12 @@ impl Ctx {
             "wall_s": (wall * 1000.0).round() / 1000.0,
             "violations": a.violations.len(),
         });
+        let mut ev = ev;
+        if let Ok(fz) = std::env::var("VERIF_FUZZ_STATS") {
+            if let Ok(v) = serde_json::from_str::<Value>(&fz) {
+                ev["coverage"]["coverage_guided_campaign"] = v;
+            }
+        }
         let dir = verif_root().join("evidence");
         let _ = std::fs::create_dir_all(&dir);
         let path = dir.join(format!("{}.json", self.prop));
@@ -776,22 +784,21 @@ thread_local! {
     static FUZZ_FINDINGS: RefCell<Option<Vec<Finding>>> = const { RefCell::new(None) };
 }
 
-/// Decode `data` through `strat` (the fuzzer's bytes are the generator's random
-/// stream, so the input is always structurally valid), run it, and return the
-/// scenario and failure if the oracle failed with a signature that is not a
-/// listed known finding of `prop`.
-pub fn fuzz_one<S>(prop: &str, strat: &BoxedStrategy<S>, run: &(dyn Fn(&S) -> Outcome + Sync), data: &[u8]) -> Option<(S, Failure)>
+/// Decode `data` structurally into a scenario (see `bytesde`), clamp it into the
+/// generator's domain with `sanitize` (returning false skips the input), run it, and return
+/// the scenario and failure if the oracle failed with a signature that is not a listed
+/// known finding of `prop`.
+pub fn fuzz_one<S>(prop: &str, sanitize: &dyn Fn(&mut S) -> bool, run: &(dyn Fn(&S) -> Outcome + Sync), data: &[u8]) -> Option<(S, Failure)>
 where
-    S: Serialize + std::fmt::Debug + Clone + 'static,
+    S: Serialize + DeserializeOwned + std::fmt::Debug + Clone + 'static,
 {
     if data.is_empty() {
         return None;
     }
-    let rng = TestRng::from_seed(RngAlgorithm::PassThrough, data);
-    let config = Config { cases: 1, failure_persistence: None, ..Config::default() };
-    let mut runner = TestRunner::new_with_rng(config, rng);
-    let tree = strat.new_tree(&mut runner).ok()?;
-    let s = tree.current();
+    let mut s: S = bytesde::from_bytes(data).ok()?;
+    if !sanitize(&mut s) {
+        return None;
+    }
     let o = guarded(run, &s);
     let f = o.failure?;
     let known = FUZZ_FINDINGS.with(|k| {
